@@ -39,6 +39,7 @@ type Info struct {
 	PoolPuts    int      `json:"pool_puts"`
 	SyncRewrite int      `json:"sync_rewrites"`
 	AtomicSites int      `json:"atomic_sites"`
+	AtomicVars  []string `json:"atomic_vars"`
 	Knobs       []string `json:"knobs"`
 	Globals     []string `json:"globals"`
 	Unmonitored []string `json:"globals_unmonitored"`
@@ -396,6 +397,17 @@ func seamEdits(fset *token.FileSet, j *fileJob, ti *types.Info, info *Info) erro
 				if id, ok := se.X.(*ast.Ident); ok {
 					if pn, ok := ti.Uses[id].(*types.PkgName); ok && pn.Imported().Path() == "sync/atomic" {
 						j.atom = append(j.atom, fset.Position(x.Pos()).Offset)
+						// atomic.AddInt64(&counter, 1): a plain package-level variable that is
+						// only ever touched through sync/atomic functions is synchronised state
+						if len(x.Args) > 0 {
+							if u, ok := x.Args[0].(*ast.UnaryExpr); ok && u.Op == token.AND {
+								if vid, ok := u.X.(*ast.Ident); ok {
+									if v, ok := ti.Uses[vid].(*types.Var); ok && v.Parent() == v.Pkg().Scope() {
+										info.AtomicVars = append(info.AtomicVars, v.Name())
+									}
+								}
+							}
+						}
 					}
 				}
 				return true
@@ -443,14 +455,16 @@ func seamEdits(fset *token.FileSet, j *fileJob, ti *types.Info, info *Info) erro
 				if !ptr {
 					recvTxt = "&" + recvTxt
 				}
-				args := ""
-				for _, a := range x.Args {
-					args += ", " + src(a)
-				}
+				// replace only "recv.Method(" so that the arguments (which may contain
+				// function literals with their own yield points) stay untouched
 				p0 := fset.Position(x.Pos()).Offset
-				p1 := fset.Position(x.End()).Offset
-				j.edits = append(j.edits, edit{p0, p1, "verifrt." + fn + "(" + recvTxt + args + ")"})
-				return false
+				p1 := fset.Position(x.Lparen).Offset + 1
+				txt := "verifrt." + fn + "(" + recvTxt
+				if len(x.Args) > 0 {
+					txt += ", "
+				}
+				j.edits = append(j.edits, edit{p0, p1, txt})
+				return true
 			}
 		}
 		return true
